@@ -1979,3 +1979,24 @@ def empty_repetition_rule(syn, prop, rule="C16.R9"):
     r.stats["untyped_repetitions"] = n
     r.floor = 3
     return r
+
+
+def export_test_params_rule(syn, prop, rule="C16.R10"):
+    """the generated `#[test] fn export_bindings_*` names the item with explicit generic arguments; a const parameter
+    cannot be left out (E0107) and cannot be inferred there"""
+    r = Result(rule, "the type named by the generated export test supplies an argument for every non-lifetime generic parameter of the item, const parameters included")
+    fn = syn.fn("DerivedTS::generate_export_test", "macros/src/lib.rs")
+    if fn is None:
+        r.fail(prop, "anchor-missing generate_export_test", "not found")
+        return r
+    names = {S.squash(e.get("method", "")) for e in S.events(fn, "mcall")}
+    txt = S.squash(json.dumps([{k: v for k, v in e.items() if k != "ctx"} for e in fn["events"]]))
+    uses_type_params = "type_params" in names
+    covers_const = "const_params" in names or "GenericParam::Const" in txt or ("params" in names and "GenericParam::Lifetime" in txt)
+    r.inst(fn=fn["qual"], argument_list_from=sorted(n for n in names if n.endswith("params")), covers_const_parameters=covers_const)
+    if uses_type_params and not covers_const:
+        r.fail(prop, "export-test-omits-const-params DerivedTS::generate_export_test",
+               "the argument list is built from `generics.type_params()` only: `#[derive(TS)] #[ts(export)] struct S<const N: usize> { a: [i32; N] }` expands to a test naming `S<>`, which fails with E0107 (missing generics)",
+               fn["file"], fn["line"])
+    r.floor = 1
+    return r
